@@ -166,6 +166,8 @@ func genProbe(r *rand.Rand) Case {
 	}
 	switch x := r.Intn(100); {
 	case x < 55:
+		// (a saveStored is not injected: its in-place change of a cached object is shared with the flush's
+		// snapshot of pointers, which the model's value snapshots do not express; see notes/C19.md)
 		iop = OpJ{Op: "save", Key: rig.Hex(up), Cond: genCond(r, up, name)}
 	case x < 72:
 		iop = OpJ{Op: "delete", Key: rig.Hex(up), Name: rig.Hex(name)}
@@ -181,6 +183,11 @@ func genProbe(r *rand.Rand) Case {
 		f.Op = "stop"
 	}
 	cs.Ops = append(cs.Ops, f)
+	if r.Intn(3) == 0 {
+		e := genCond(r, up, name)
+		e.Rv = 0
+		cs.Ops = append(cs.Ops, OpJ{Op: "saveStored", Key: rig.Hex(up), Name: rig.Hex(name), Cond: e})
+	}
 	for i := r.Intn(3); i > 0; i-- {
 		cs.Ops = append(cs.Ops, genOp(r, &cs, cs.Shard, true))
 	}
